@@ -711,8 +711,14 @@ def spaces(n, fill=" "):
     n = z.simp(n)
     if not is_sym(n):
         return fill * max(0, n)
-    core.assume(z.le(n, PADCAP))  # stated bound on paddings
-    return SymStr([f] * PADCAP, z.max_i(n, 0), PADCAP)
+    n = core.try_concretize(n)
+    if not is_sym(n):
+        return fill * max(0, n)
+    # paddings of symbolic length are bounded by PADCAP; longer ones end the path as out-of-bound (counted and
+    # reported in the evidence - this used to be an assumption, which removed those inputs silently)
+    if core.decide(z.le(n, PADCAP)):
+        return SymStr([f] * PADCAP, z.max_i(n, 0), PADCAP)
+    raise core.OutOfBound("symbolic padding longer than %d" % PADCAP)
 
 
 def concat(parts):
